@@ -122,6 +122,40 @@ def _bound(c, xpos):
     return "lower", rest, incl      # -x + rest (<|<=) 0 -> x (>|>=) rest
 
 
+def absolute_positions(ck, rule):
+    """the merged list is sorted by absolutePosition: a pair and an unpaired reference label sit at their reference coordinate,
+    an unpaired query label at its query coordinate shifted onto the reference by the seed; ordering is strict on that value"""
+    from ..rules.common import merged_return
+    p = ck.ctx.p
+    ck.clause(rule, "ordering of the merged list: absolutePosition = reference coordinate (pairs, unpaired reference labels) / "
+                    "query coordinate + seed offset (unpaired query labels); positions compare by it")
+    want = {"AlignedPair": T.mk_attr(self_attr("reference"), "position"),
+            "NotAlignedReferencePosition": T.mk_attr(self_attr("reference"), "position"),
+            "NotAlignedQueryPosition": T.p_add(T.mk_attr(self_attr("query"), "position"), self_attr("referenceStart"))}
+    for cname, w in want.items():
+        cls = p.find_class(cname)
+        m = cls.methods.get("absolutePosition")
+        if m is None:
+            raise AnalysisError(f"{cls.where}: {cname}.absolutePosition not found")
+        v, pa = merged_return(ck, m)
+        ck.judge(v == w, rule, short(m), where(m, pa.node), f"absolute position of a {cname}", found=T.show(v)[:120], required=T.show(w)[:120])
+    base = p.find_class("AlignmentPosition")
+    lt = base.methods.get("__lt__")
+    if lt is None:
+        raise AnalysisError(f"{base.where}: AlignmentPosition.__lt__ not found")
+    other = V(lt.call_params()[0].name)
+    v, pa = merged_return(ck, lt)
+    w = T.mk_lt(self_attr("absolutePosition"), T.mk_attr(other, "absolutePosition"))
+    ck.judge(T.as_bool(v) == w, rule, short(lt), where(lt, pa.node), "positions are ordered by absolute position (strictly: sorted() is "
+             "stable, equal positions keep pairs before unpaired labels)", found=T.show(v)[:120], required=T.show(w)[:120])
+    # the seed offset stored in an unpaired query label is the constructor argument
+    q = p.find_class("NotAlignedQueryPosition")
+    from ..rules.effects import init_param_to_attr
+    m = init_param_to_attr(ck.ctx, q)
+    ck.judge(m.get("referenceStart") == "referenceStart" and m.get("query") == "query", rule, "NotAlignedQueryPosition.__init__",
+             q.where, "constructor stores the label and the seed offset under their own names", found=str(m))
+
+
 def run(ck):
     ctx = ck.ctx
     p = ctx.p
@@ -328,3 +362,4 @@ def run(ck):
                  "both the reference and the query side have an unpaired list", found=str(sorted(sides)))
     numbering(ck, "C12.4")
     dedupe(ck, "C12.5")
+    absolute_positions(ck, "C12.6")
